@@ -174,6 +174,20 @@ def _timeline(rec, rng, sim, R, V, srv, pi, pt, n, monitor, rto, desc):
                 sim.quiesce()
                 s.holds[-1][1] = sim.now
                 R.upgrade_failed(s)
+        elif k < 0.72 and not R.ended(s) and s.mode == 'websocket' and \
+                s.ws is not None and pi >= 4 * pt:
+            # the peer drains one server write slowly - longer than
+            # ping_timeout - between two heartbeats which it answers in
+            # time: "however ... the server's own sends are timed"
+            last = s.pongs[-1] if s.pongs else s.open_t
+            due = last + pi
+            dur = 1.5 * pt
+            if s.pongs and s.pings and s.pongs[-1] >= s.pings[-1] and \
+                    due - sim.now > dur + pt / 4.0:
+                rec.count('slow_writes_between_heartbeats')
+                s.ws.stall(dur)
+                R.send(s, 'text')
+                sim.advance(dur + pt / 8.0)
         # (no overlapping polls here: a second concurrent GET is a client
         # protocol violation which the server may answer by closing)
     sim.quiesce()
